@@ -20,7 +20,10 @@ MANIFEST = {
             'independence) on every list of 1..3 lattice boxes, then emits every list of 1..3 boxes (axis-aligned, quarter '
             'turn, half turn; identical, nested, edge-sharing) and random lists of 4..8 axis-aligned boxes with the exact '
             'owned cell counts; the real functions are called for every order of each list and the shares / polygon areas '
-            'compared; panics are caught and reported.',
+            'compared; panics are caught and reported. Every box of every list is also evaluated alone under similarities with non-round '
+            'factors and offsets (the f32 area in the denominator is then inexact): the share must be within [0,1] exactly and 1 up to '
+            'tolerance. Tracker level: own-area gates of VisualSORT (batches of two scenes; the simple API with detections with and '
+            'without a feature sharing a slot) replayed from TLC-simulated histories of Visual.tla.',
     'note': 'Exact lattice sub-domain (half-unit coordinates, right-angle rotations); general rotations are not decided. '
             'Known finding F10: the geo crate panics on some lists mixing an axis-aligned box with boxes rotated by pi/2 and '
             '-pi (angles inexact in f32): those inputs are listed by name in known_findings.json. Share tolerance 1e-4 + '
@@ -70,6 +73,11 @@ def run(chk):
     chk.add_report("v-own-two-scenes:batchvisual", rep)
     rep["by_sig"] = {s_: v for s_, v in rep["by_sig"].items() if s_ not in base["by_sig"]}
     chk.classify("tracker", args, rep)
+    # the same gates through the simple API, detections with and without a feature mixed: a detection without a feature
+    # still covers the box it shares a slot with (both kinds; one scene, so nothing is subtracted)
+    r3, c3 = tc.generate_visual(chk, "v-own-simple", depth=7, simulate={"num": 80 if quick else 400, "depth": 8}, Sim=6, OwnUse=50, OwnCollect=50)
+    for kind in ("visual", "batchvisual"):
+        tc.replay_visual(chk, "v-own-simple", r3, c3, kind, 2, "all", "nt_C12")
     chk.assumptions += [
         "angles k*pi/2 are rounded to f32 by construction of the input (the boxes are then almost, not exactly, "
         "axis-aligned): the area tolerance is widened by the measured rounding x perimeter",
